@@ -34,7 +34,17 @@ def _run(shard):
     signal.signal(signal.SIGALRM, _alarm)
     signal.alarm(limit)
     try:
-        rep = _MOD.run_shard(shard, _TIER, _SEED)
+        if isinstance(shard, tuple) and shard and shard[-1] == "debuglog":
+            # environment dimension: the same shard with the library logging at its most verbose level
+            from vmc.checks.harness import debug_logging
+
+            with debug_logging():
+                rep = _MOD.run_shard(shard[:-1], _TIER, _SEED)
+            rep.violations = {k + "/with-debug-logging": v for k, v in rep.violations.items()}
+            rep.viol_counts = {k + "/with-debug-logging": v for k, v in rep.viol_counts.items()}
+            rep.nontrivial = {__import__("hashlib").blake2b(h + b"dbg", digest_size=8).digest() for h in rep.nontrivial}
+        else:
+            rep = _MOD.run_shard(shard, _TIER, _SEED)
         return ("ok", shard, rep.compact())
     except BaseException as e:  # harness failure, reported as broken
         return ("err", shard, "".join(traceback.format_exception(type(e), e, e.__traceback__)))
